@@ -124,12 +124,17 @@ class C19Episode(Episode):
             for a, b in zip(sp, sp[1:]):
                 if not (self.paced.get(a.pid) and self.paced.get(b.pid)):
                     continue
-                if str(a.death_cause).startswith('sup:') and \
-                        a.death_time is not None and \
-                        a.death_time <= b.spawn_time:
-                    # the daemon itself terminated the earlier one meanwhile
-                    # (a start called off by a hook, a stop): the later spawn
-                    # belongs to another start, not to the same sequence
+                stopped_between = any(
+                    topic == 'watcher.%s.stop' % wc['name'].lower() and
+                    a.spawn_time <= t <= b.spawn_time
+                    for (seq, t, topic, obj) in self.world.ctx.events)
+                if stopped_between or (
+                        a.term_first is not None and
+                        a.term_first[0] <= b.spawn_time):
+                    # the daemon itself had begun to terminate the earlier one
+                    # (a start called off by a hook, a stop, a worker its
+                    # after_spawn hook rejected): the later spawn belongs to
+                    # another start, not to the same sequence
                     continue
                 self.probes['paced_gaps_checked'] += 1
                 if b.spawn_time - a.spawn_time < wd - EPS:
@@ -154,7 +159,8 @@ class C19(Prop):
     level = 'exploration'
     rule = ('one case = 2-5 watchers with seeded priorities (ties, '
             'negatives), numprocesses 1-4, per-watcher and global warmup '
-            'delays (0 included), autostart flags, in 15 % before_spawn hooks '
+            'delays (0 included), autostart flags (6 % of the cases run the real '
+            'circusd.main(), the arbiter owning its loop), in 15 % before_spawn hooks '
             'that block for a different time at each call, in 12 % a hook that '
             'calls a watcher\'s start off after it has spawned; triggers: daemon start, '
             'stop-all then start (all), start / restart with a glob matching '
@@ -165,7 +171,56 @@ class C19(Prop):
     chunk = 150
     budget = {'quick': 30, 'thorough': 600}
 
+    def gen_blocking(self, rng, tier, seed):
+        """the real circusd.main(): the arbiter owns its loop (the start-up
+        sequence is a future of the running loop, not awaited by start())"""
+        cfg = gen.gen_base_cfg(rng, seed, nwatch=(2, 3, 4),
+                               numproc=(1, 1, 2), priority=True,
+                               singleton_p=0.0, kinds=('obedient',),
+                               warmup=[0, 1, 2], grace=[0, 0.05])
+        cfg['warmup_delay'] = rng.choice([0, 1])
+        cfg['sockets'] = []
+        cfg['pidfile'] = False
+        cfg['max_vtime'] = 900.0
+        for wc in cfg['watchers']:
+            wc['opts']['numprocesses'] = max(1, wc['opts']['numprocesses'])
+            if rng.random() < 0.5:
+                wc['opts']['autostart'] = False
+        if all(wc['opts'].get('autostart', True) is False
+               for wc in cfg['watchers']):
+            cfg['watchers'][0]['opts'].pop('autostart')
+        startup = sum(w['opts']['numprocesses'] * w['opts']['warmup_delay']
+                      for w in cfg['watchers']) + \
+            cfg['warmup_delay'] * len(cfg['watchers'])
+        ops = [{'op': 'dsig', 'sig': 15, 'at': startup + 3.0}]
+        return {'cfg': cfg, 'ops': ops, 'kind': 'blocking'}
+
+    def run_blocking(self, case):
+        from . import c08
+        from ..lifecycle import Violation
+        r = c08.C08Run(case).run()
+        viol = []
+        for wc in case['cfg']['watchers']:
+            if wc['opts'].get('autostart', True) is False:
+                sp = [t for (m, t) in getattr(r, 'spawn_log', [])
+                      if m == wc['marker']]
+                if sp:
+                    viol.append(Violation(
+                        'autostart_false_started',
+                        '%s has autostart=false and no start request was '
+                        'sent: the daemon start (arbiter running its own '
+                        'loop) spawned workers for it at +%s s'
+                        % (wc['name'], ['%.2f' % t for t in sp[:3]]),
+                        mode='blocking'))
+        r.violations = viol
+        r.probes = {'autostart_false_checked_in_blocking_mode': sum(
+            1 for wc in case['cfg']['watchers']
+            if wc['opts'].get('autostart', True) is False)}
+        return r
+
     def gen(self, rng, tier, seed):
+        if rng.random() < 0.06:
+            return self.gen_blocking(rng, tier, seed)
         cfg = gen.gen_base_cfg(rng, seed, nwatch=(2, 3, 3, 4, 5),
                                numproc=(1, 1, 2, 3, 4), priority=True,
                                autostart_p=0.85, singleton_p=0.05,
@@ -279,6 +334,13 @@ class C19(Prop):
         return {'cfg': cfg, 'ops': ops}
 
     def run(self, case):
+        if case.get('kind') == 'blocking':
+            r = self.run_blocking(case)
+            return {'violations': [v.as_dict() for v in r.violations],
+                    'fired': r.fired, 'probes': r.probes, 'ops': {},
+                    'sig': 'blocking/%s' % case['cfg'].get('seed'),
+                    'nontrivial': True, 'stats': getattr(r, 'stats', {}),
+                    'aborted': None, 'digest': getattr(r, 'digest', None)}
         ep = C19Episode(case)
         ep.run()
         nt = ep.probes.get('multi_watcher_windows', 0) > 0
